@@ -482,14 +482,18 @@ def apply_op(fam, m, op, state):
     elif op == "fantasy_selfcheck":
         # exact fantasy model: its first predictions (default and fast-variance settings) are served from the caches injected by
         # the update formulas; after train()/eval() they are recomputed from its own data - the same numbers
-        if m.prediction_strategy is None:
-            predict(m, f.xs)
-        fm = m.get_fantasy_model(list(f.Xf) if isinstance(f.Xf, tuple) else f.Xf, f.yf)
-        fm.eval()
-        first = [predict(fm, f.xs, cfg) for cfg in ((False, True, False, True), (True, True, False, True))]
-        fm.train()
-        fm.eval()
-        again = [predict(fm, f.xs, cfg) for cfg in ((False, True, False, True), (True, True, False, True))]
+        # (autograd off: kernel-specific strategies keep non-leaf caches otherwise and the model copy inside get_fantasy_model
+        # refuses them - the recorded deepcopy finding; the default strategy detaches its caches)
+        with torch.no_grad():
+            m.prediction_strategy = None if any(getattr(v_, "grad_fn", None) is not None for v_ in getattr(m.prediction_strategy, "_memoize_cache", {}).values() if torch.is_tensor(v_)) else m.prediction_strategy
+            if m.prediction_strategy is None:
+                predict(m, f.xs)
+            fm = m.get_fantasy_model(list(f.Xf) if isinstance(f.Xf, tuple) else f.Xf, f.yf)
+            fm.eval()
+            first = [predict(fm, f.xs, cfg) for cfg in ((False, True, False, True), (True, True, False, True))]
+            fm.train()
+            fm.eval()
+            again = [predict(fm, f.xs, cfg) for cfg in ((False, True, False, True), (True, True, False, True))]
         cat = lambda lst: (torch.cat([a_[0].reshape(-1) for a_ in lst]), torch.cat([a_[1].reshape(-1) for a_ in lst]))
         return ("selfcheck", cat(first), cat(again))
     elif op == "var_fantasy":
